@@ -772,16 +772,20 @@ def Drain.drop (d : Drain) : M Unit := do
 
 /-! ## comparison, hashing, formatting -/
 
+/-- one element comparison (`PartialEq::eq` of the element type: user code, may panic once) -/
+def eqOne (x y : Elem) : M Bool := fun s =>
+  let (k, boom) := tick s.faults.eq
+  let s1 := { s with faults := { s.faults with eq := k } }
+  let s2 := if s.kind = .byte then s1 else { s1 with log := .cmp x.id y.id :: s1.log }
+  if boom then (.error (.user "eq"), s2) else (.ok (decide (x.val = y.val)), s2)
+
 /-- `[T] == [U]` element-wise, in order, stopping at the first difference -/
 def eqElems : List Elem → List Elem → M Bool
   | [], [] => pure true
-  | x :: xs, y :: ys => fun s =>
-    let (k, boom) := tick s.faults.eq
-    let s1 := { s with faults := { s.faults with eq := k } }
-    let s2 := if s.kind = .byte then s1 else { s1 with log := .cmp x.id y.id :: s1.log }
-    if boom then (.error (.user "eq"), s2)
-    else if x.val = y.val then eqElems xs ys s2 else (.ok false, s2)
-  | _, _ => pure false
+  | [], _ :: _ => pure false
+  | _ :: _, [] => pure false
+  | x :: xs, y :: ys => do
+    if ← eqOne x y then eqElems xs ys else pure false
 
 def viewElems (b : CB) (v : View) : List Elem := v.slots.filterMap b.items
 
